@@ -1213,3 +1213,42 @@ def _ordering_is(I, a, ci, dt):
     n = o.vname
     return {'is_eq': n == 'Equal', 'is_ne': n != 'Equal', 'is_lt': n == 'Less', 'is_gt': n == 'Greater',
             'is_le': n != 'Greater', 'is_ge': n != 'Less'}[ci.method]
+
+
+# itertools::Itertools::merge_by: a stable two-way merge by a "left goes first" predicate (merge itself
+# is in models.py); dedup / dedup_by on an iterator.  Eager: the inputs are finite collections here.
+@reg('Itertools::merge_by')
+def _itertools_merge_by(I, a, ci, dt):
+    from .models import ListIter
+    left = collect_iter(I, a[0])
+    right = collect_iter(I, a[1])
+    out = []
+    i = j = 0
+    while i < len(left) and j < len(right):
+        first = call_closure(I, a[2], Ref(Cell(left[i]), ()), Ref(Cell(right[j]), ()))
+        if (I.branch(first) if not isinstance(first, bool) else first):
+            out.append(left[i])
+            i += 1
+        else:
+            out.append(right[j])
+            j += 1
+    out.extend(left[i:])
+    out.extend(right[j:])
+    return ListIter(out)
+
+
+@reg('Itertools::dedup', 'Itertools::dedup_by')
+def _itertools_dedup(I, a, ci, dt):
+    from .models import ListIter, values_equal
+    xs = collect_iter(I, a[0])
+    out = []
+    for x in xs:
+        if out:
+            if ci.method == 'dedup_by':
+                same = call_closure(I, a[1], Ref(Cell(out[-1]), ()), Ref(Cell(x), ()))
+            else:
+                same = values_equal(I, out[-1], x)
+            if (I.branch(same) if not isinstance(same, bool) else same):
+                continue
+        out.append(x)
+    return ListIter(out)
